@@ -149,8 +149,9 @@ def unit(tier):
     S_ = Session((), True)
     stats = {'paths': 0, 'tuples': 0, 'fenc': set(), 'lmod': set(), 'solver_s': 0.0, 'branches': 0}
     findings = []; inconclusive = []; samples = []
-    plan = [(2, 1, True), (3, 1, True), (3, 2, False)] if tier == 'quick' else [(2, 1, True), (2, 2, True), (3, 1, True), (3, 2, True), (4, 1, False), (4, 2, False)]
-    for n, g, wq in plan: samples.append(unit_case(S_, n, g, wq, stats, findings, inconclusive))
+    plan = [(2, 1, True), (3, 1, True), (3, 2, False)] if tier == 'quick' else [(2, 1, True), (2, 2, True), (3, 1, True), (3, 2, True), (4, 1, False), (4, 2, False),
+                                                                                                (5, 1, False, ((0, 1, 2, 4, 3),)), (5, 1, False, ((1, 0, 3, 2, 4),))]
+    for n, g, wq, *fx in plan: samples.append(unit_case(S_, n, g, wq, stats, findings, inconclusive, fixed=fx[0] if fx else ()))
     violations = []; validated = 0; seen = set(); failed = {}
     for f in findings:
         key = 'unit:n%d:%s' % (f['n'], re.sub(r'[^\w]', '_', f['what'].split(';')[0].split('(')[0].split(' ')[0])[:30])
@@ -167,7 +168,7 @@ def unit(tier):
     return {'samples': samples, 'violations': violations, 'inconclusive': inconclusive, 'states': stats['paths'], 'transitions': stats['branches'], 'validated': validated,
             'functions_encoded': sorted(short_fn(x) for x in stats['fenc']), 'library_models': sorted(stats['lmod']), 'solver_time_s': round(stats['solver_s'], 2), 'wall_s': time.time() - t0,
             'summary': '%d permutation tuples decided on %d paths' % (stats['tuples'], stats['paths']),
-            'bounds': 'unit level: groups on <= %d slots with <= 2 symbolic generators (every generator tuple), one symbolic membership query and one symbolic added permutation on <= 3 slots; P = SlotMap' % (3 if tier == 'quick' else 4)}
+            'bounds': 'unit level: groups on <= %d slots with <= 2 symbolic generators (every generator tuple), one symbolic membership query and one symbolic added permutation on <= 3 slots%s; P = SlotMap' % (3 if tier == 'quick' else 4, '' if tier == 'quick' else '; 5 slots: one symbolic generator next to the concrete generator (3 4), resp. (0 1)(2 3)')}
 
 def run(tier, seed=0):
     return tmpl_props.run('C10', tier, seed, unit(tier))
